@@ -770,6 +770,53 @@ impl<'a> Gen<'a> {
 }
 
 impl IovecFamily {
+    /// Histories in which one iovec holds NON-adjacent anchors for the same chunk (chunk order
+    /// X..Y..X): an arena handed away and back (`take_arena` / `swap_arena`), or an anchored slice
+    /// held across a chunk rollover and pushed later.  Then a snapshot (clone / take) is consumed
+    /// up to, but not including, the second X run after every other holder of X is gone.
+    fn handoff_cases(&self) -> Vec<Vec<String>> {
+        let mut cases: Vec<Vec<String>> = Vec::new();
+        let pay = |tag: u8, n: usize| to_hex(&(0..n).map(|k| tag.wrapping_add(k as u8)).collect::<Vec<u8>>());
+        for n in [30usize, 100, 300] {
+            for snap in ["clone", "take"] {
+                for k in 1..=3usize {
+                    // (a) arena hand-off
+                    let mut c: Vec<String> = vec![
+                        "new".into(),
+                        format!("push_copy v0 {}", pay(0x10, n)),
+                        "take_arena v0".into(),
+                        format!("push_copy v0 {}", pay(0x40, n)),
+                        "swap_arena v0 a0".into(),
+                        format!("push_copy v0 {}", pay(0x70, n)),
+                        format!("{} v0", snap),
+                        "drop v0".into(),
+                        "drop_arena a0".into(),
+                        format!("consume v1 {}", k),
+                        "read v1 2000".into(),
+                    ];
+                    cases.push(c.clone());
+                    // the same, dropping the arena before the original
+                    c.swap(7, 8);
+                    cases.push(c);
+                    // (b) anchored slice held across a rollover of the iovec's own arena
+                    cases.push(vec![
+                        "new".into(),
+                        format!("push_copy v0 {}", pay(0x10, n)),
+                        format!("read_n v0 300 4 {} d300", pay(0x90, 304)),
+                        "flush v0".into(),
+                        format!("push_copy v0 {}", pay(0x40, n)),
+                        "push_aslice v0 s0".into(),
+                        format!("{} v0", snap),
+                        "drop v0".into(),
+                        format!("consume v1 {}", k),
+                        "read v1 2000".into(),
+                    ]);
+                }
+            }
+        }
+        cases
+    }
+
     /// Scripted ownership scenarios for anchored slices (C05/C10): every way of deriving an
     /// `AnchoredSlice` from another one (split halves, clone, take, skip, drop-suffix, push into an
     /// iovec as a copied / borrowed slice), followed by dropping every OTHER holder of the chunk in
@@ -911,6 +958,7 @@ impl Family for IovecFamily {
         let c = |ops: &[&str]| ops.iter().map(|s| s.to_string()).collect::<Vec<String>>();
         let mut cases = self.fill_order_cases(thorough);
         cases.extend(self.ownership_cases());
+        cases.extend(self.handoff_cases());
         cases.extend(vec![
             c(&["new", "register v0 0000", "backfill v0 b0 aa"]),
             c(&["new", "register v0 0000", "backfill v0 b0 aabbcc"]),
